@@ -10,8 +10,10 @@ RULE = ("three-participant dsim scenarios (writer, reader on the filtered topic,
         "datagram, merged pair-wise (coalesce-next) or re-grouped arbitrarily (hold + x-w2d merge-held); a case is "
         "non-trivial when the filter is valid, at least one sample passes and one fails, and some datagram carries two or "
         "more DATA submessages; distinct by op list")
-ASSUMPTIONS = ["the delivered model is that of the repository's main branch (D32 is repaired there) WITH fixes/D60.patch applied "
-               "(create_contentfilteredtopic validates the filter and answers BadParameter)",
+ASSUMPTIONS = ["the delivered model is that of the repository's main branch (D32, D60 repaired there) WITH fixes/D61.patch applied "
+               "(the operand after the operator is read: %n / quoted string / integer literal; everything else is rejected at creation)",
+               "tolerated: a quoted integer for an INT32 member (`value <= '5'`) and an unquoted integer literal for a string member "
+               "(`name = 10`, compared as text) are accepted by the code and by the oracle's specification",
                "reliable KEEP_ALL endpoints without resource limits, no time passes inside a scenario (virtual time 0)",
                "filter expressions of the form `<member> (=|<=) <operand>`; every other SQL operator is unimplemented in "
                "dust-dds and outside this check",
@@ -37,9 +39,16 @@ CORPUS = [
     P("ki", "-", "value <= %0") + ["write w 1 5", "take rf", "probe P1"],
     P("ki", "abc", "value <= %0") + ["write w 1 5", "take rf", "probe P1"],
     P("kb", "05", "value = %0") + ["write w 1 0505", "take rf", "probe P1"],
-    # known finding D61: the operand text is ignored, parameter 0 is used
-    P("ki", "100,3", "value <= %1") + ["write w 1 5", "write w 2 50", "take rf", "take rc"],
-    P("ki", "3", "value <= 10") + ["write w 1 5", "write w 2 2", "take rf", "take rc"],
+    # D61 (repaired by fixes/D61.patch): the operand text was ignored and parameter 0 used: these two presented (5, 50) and (2)
+    P("ki", "100,3", "value <= %1") + ["write w 1 5", "write w 2 50", "write w 3 3", "take rf", "take rc"],
+    P("ki", "3", "value <= 10") + ["write w 1 5", "write w 2 2", "write w 3 11", "take rf", "take rc"],
+    # operand forms: %2, quoted string literal, literal without any parameter, index beyond the list (rejected), no operand (rejected)
+    P("ks", "zz,zz,m", "name <= %2") + ["hold DATA user to=P2", "x-w2d s-write w 1 abc", "x-w2d s-write w 2 z", "x-w2d s-write w 3 m",
+                                          "x-w2d merge-held 3", "x-w2d s-take rf", "x-w2d s-take rc"],
+    P("ks", "zz", "name = 'ab'") + ["x-w2d s-write w 1 ab", "x-w2d s-write w 2 zz", "x-w2d s-take rf"],
+    P("ki", "-", "id = 7") + ["write w 7 1", "write w 8 1", "take rf"],
+    P("ki", "5,6", "value <= %2") + ["write w 1 5", "take rf", "take rc", "probe P2"],
+    P("ki", "5", "value <= abc") + ["write w 1 5", "take rf", "take rc", "probe P2"],
     # unknown member: nothing is presented, nothing breaks
     P("ki", "5", "valu = %0") + ["write w 1 5", "take rf", "take rc", "probe P2"],
     # i32 rails
@@ -133,7 +142,7 @@ def run(ctx):
     n = 400 if ctx.tier == "quick" else 4000
     cases = [Case(list(c)) for c in CORPUS]
     for k in range(n):
-        force = "invalid" if k % 20 == 7 else ("rhs" if k % 20 == 13 else None)
+        force = "invalid" if k % 20 == 7 else ("rhs" if k % 20 in (3, 13, 17) else None)
         cases.append(gen_case(r, force=force))
     for c in cases:
         sc = Scenario(c.lines)
@@ -151,21 +160,24 @@ def run(ctx):
 
 TECHNIQUE = ("Lean 4 theorems over all filters / batches / datagram groupings of the model of the filter evaluation and batch loop + "
              "differential correspondence with the real stack in the deterministic simulator (real writer, real datagrams re-grouped)")
-LEVEL_TEXT = ("Kernel-checked Lean theorems about the transcription of create_contentfilteredtopic's validation (fixes/D60.patch), of the filter "
-              "evaluation and of the per-datagram loop of process_user_defined_received_cache_changes: EVERY filter the validation accepts judges "
-              "every sample of the related type without panic or structural failure (C26_validated_total), so for every accepted filter, every "
-              "list of changes and EVERY grouping of them into datagrams the loop hands exactly the satisfying samples (and all not-alive changes) "
-              "to the reader history, in order (C26_exact_validated, C26_exact), independent of the grouping (C26_grouping_independent); the "
-              "code's evaluation equals the DDS meaning of the expression when the operand is %0 (C26_eval_spec_int / _str, C26_exact_int / _str); "
-              "with an unlimited KEEP_ALL history every delivered sample is stored in arrival order (C26_presented). The loop as first found "
-              "(continue 'data_readers, D32, repaired on main) is kept: C26_asis_batch_counterexample, C26_asis_prefix_partial. One deviation stays "
-              "open with a witness: the operand text is ignored and parameter 0 is always used (D61). The model is tied to the real code by dsim "
-              "scenarios in which the real writer's datagrams are merged pair-wise or re-grouped arbitrarily and every answer (creation result, "
-              "samples taken from the filtered reader and from a control reader) is compared line by line with the model; a Python statement of "
-              "the filter semantics checks the implementation output alone.")
+LEVEL_TEXT = ("Kernel-checked Lean theorems about the transcription of create_contentfilteredtopic's validation, of the operand resolution "
+              "(fixes/D61.patch: %n / quoted string / integer literal), of the filter evaluation and of the per-datagram loop of "
+              "process_user_defined_received_cache_changes: EVERY filter the validation accepts judges every sample of the related type "
+              "without panic or structural failure (C26_validated_total), so for every accepted filter, every list of changes and EVERY "
+              "grouping of them into datagrams the loop hands exactly the satisfying samples (and all not-alive changes) to the reader "
+              "history, in order (C26_exact_validated, C26_exact), independent of the grouping (C26_grouping_independent); the code's "
+              "verdict equals the DDS meaning `member op value` for EVERY operand form the code resolves (C26_eval_spec_int / _str, "
+              "C26_exact_int / _str), and C26_operand_param / _quoted / _literal say which text denotes which value (a parameter index "
+              "beyond the list denotes nothing and the filter is rejected); with an unlimited KEEP_ALL history every delivered sample is "
+              "stored in arrival order (C26_presented). Regression witnesses keep the three repaired defects: the loop as first found "
+              "(D32: C26_asis_batch_counterexample, C26_asis_prefix_partial), creation without validation (D60: "
+              "C26_invalid_filter_panics_counterexample), the ignored operand (D61: C26_operand_ignored_counterexample on evalOld). The model "
+              "is tied to the real code by dsim scenarios in which the real writer's datagrams are merged pair-wise or re-grouped arbitrarily "
+              "and every answer (creation result, samples taken from the filtered reader and from a control reader) is compared line by line "
+              "with the model; a Python statement of the filter semantics checks the implementation output alone.")
 LEVEL_NOTE = ("Trusted: Lean kernel; Model/CFilter.lean (validation + evaluation + loop) and Model/ReaderHist.lean (reader history, already used by C18-C25); "
               "the dsim simulator and its `x-w2d` extension (merge-held, KeyedStr ops); harness/src/dsimwrap.rs (replaces entity handles by "
-              "`*` / `@name`); the Python oracle. The delivered model assumes main + fixes/D60.patch; on main without it invalid filters are "
-              "accepted and the first sample panics the worker (oracle `invalid-filter-accepted-then-panics`, correspondence fails). Operators "
+              "`*` / `@name`); the Python oracle. The delivered model assumes main + fixes/D61.patch; on main without it every operand other than %0 is "
+              "evaluated against parameter 0 (oracle `filter-operand-ignored-parameter-0-used`, correspondence fails). Operators "
               "other than = and <=, nested members, non-ASCII strings, set_expression_parameters (todo!() in the code) are not covered.")
 DESIGN_REF = "DESIGN.md section 5 C26, section 7 D32"
